@@ -1,4 +1,91 @@
-/- oracle_c07 — placeholder driver (replaced when the C07 model is added). -/
+/-
+  oracle_c07 — line-protocol driver for Model.Persist.
+    load g:<big coin ids ,> <tok> <tok> …   -> ok <number of labelled effects of the whole workload> | bad-op
+        tokens:  b:<id>:<parent>:<height>:<spends ,|->:<creates ,|->   define a block
+                 s:<id> submit   i idle   c close   o re-open (recover)   k:<n> skip-save-blocks
+                 p:<0|1> writing-time target reached immediately / never   h hurry-up
+    trace                                   -> ok <point name> <point name> …     (labels of the effect list)
+    crash <k>                               -> ok <tip1> <tip2> <coins2> <tip3> <coins3> <tie 0|1> | panic <what>
+        disk := first k effects applied; 1 = after NewChainExt, 2 = after the client's recovery loop,
+        3 = after feeding every block of the workload + Idle
+    final                                   -> ok <tip> <coins> | panic <what>     (uninterrupted run)
+-/
+import GocoinV.Model.Persist
 import GocoinV.Base.Proto
-open GocoinV
-def main : IO Unit := Proto.serve () (fun _ _ => ((), "bad-op"))
+open GocoinV GocoinV.Persist
+
+structure OState where
+  bigs : List Coin := []
+  ops : List Op := []
+  loaded : Bool := false
+
+def natList (s : String) : Option (List Nat) :=
+  if s == "-" || s == "" then some [] else (s.splitOn ",").mapM (·.toNat?)
+
+def coinsStr (l : List Nat) : String :=
+  let a := (l.toArray.qsort (· < ·)).toList
+  if a.isEmpty then "-" else ",".intercalate (a.map toString)
+
+def parseToks (defs : List Block) (acc : List Op) : List String → Option (List Op)
+  | [] => some acc.reverse
+  | t :: rest =>
+    match t.splitOn ":" with
+    | ["b", id, par, h, sp, cr] =>
+      match id.toNat?, par.toNat?, h.toNat?, natList sp, natList cr with
+      | some id, some par, some h, some sp, some cr =>
+        parseToks ({ id := id, parent := par, height := h, spends := sp, creates := cr } :: defs) acc rest
+      | _, _, _, _, _ => none
+    | ["s", id] =>
+      match id.toNat? with
+      | some id => match defs.find? (·.id == id) with
+        | some b => parseToks defs (Op.submit b :: acc) rest
+        | none => none
+      | none => none
+    | ["i"] => parseToks defs (Op.idle :: acc) rest
+    | ["c"] => parseToks defs (Op.close :: acc) rest
+    | ["o"] => parseToks defs (Op.reopen :: acc) rest
+    | ["h"] => parseToks defs (Op.hurry :: acc) rest
+    | ["k", n] => match n.toNat? with
+      | some n => parseToks defs (Op.skip n :: acc) rest
+      | none => none
+    | ["p", n] => match n.toNat? with
+      | some n => parseToks defs (Op.pause (n != 0) :: acc) rest
+      | none => none
+    | _ => none
+
+def step (st : OState) (toks : List String) : OState × String :=
+  match toks with
+  | "load" :: g :: rest =>
+    match g.splitOn ":" with
+    | ["g", bl] =>
+      match natList bl, parseToks [] [] rest with
+      | some bigs, some ops =>
+        let w := run bigs ops
+        match w.err with
+        | some e => ({ bigs := bigs, ops := ops, loaded := true }, s!"panic {e.replace " " "_"}")
+        | none => ({ bigs := bigs, ops := ops, loaded := true }, s!"ok {w.es.length}")
+      | _, _ => (st, "bad-op")
+    | _ => (st, "bad-op")
+  | ["trace"] =>
+    if !st.loaded then (st, "bad-op") else
+    let w := run st.bigs st.ops
+    (st, "ok " ++ " ".intercalate (w.es.map (·.2.name)))
+  | ["final"] =>
+    if !st.loaded then (st, "bad-op") else
+    let w := run st.bigs st.ops
+    match w.err with
+    | some e => (st, s!"panic {e.replace " " "_"}")
+    | none => (st, s!"ok {w.n.tip} {coinsStr w.n.utxo}")
+  | ["crash", k] =>
+    if !st.loaded then (st, "bad-op") else
+    match k.toNat? with
+    | none => (st, "bad-op")
+    | some k =>
+      match crashAt st.bigs st.ops k with
+      | .error e => (st, s!"panic {e.replace " " "_"}")
+      | .ok (s1, s2, s3) =>
+        let tie := (farthest s1.n).2.2
+        (st, s!"ok {s1.n.tip} {s2.n.tip} {coinsStr s2.n.utxo} {s3.n.tip} {coinsStr s3.n.utxo} {if tie then 1 else 0}")
+  | _ => (st, "bad-op")
+
+def main : IO Unit := Proto.serve ({} : OState) step
